@@ -249,7 +249,8 @@ XalanEXSLTFunctionPadding::execute(
     const XalanDOMString&               thePaddingString = theSize == 2 ? args[1]->str(executionContext) : m_space;
     const XalanDOMString::size_type     thePaddingStringLength = thePaddingString.length();
 
-    if (theLength == 0.0 || thePaddingStringLength == 0)
+    // A length that is NaN, negative or zero gives an empty string...
+    if (!(theLength >= 1.0) || thePaddingStringLength == 0)
     {
         return executionContext.getXObjectFactory().createStringReference(s_emptyString);
     }
